@@ -1,4 +1,5 @@
 import CircusProofs.Core.PidInv
+import CircusProofs.Core.StoppedEmpty
 import CircusProofs.Props.C02
 /-!
 # C04 — process accounting is exact: no leaked, untracked or phantom worker
@@ -19,13 +20,12 @@ Proved on the core model:
 * `C04_spawnAdopt_registers`, `C04_spawn_registers_before_hooks`, `C04_veto_keeps_listed_until_callback`:
   `spawn_process` registers the child before the `after_spawn` hook runs; on a veto the child stays
   registered until the `popProc` done-callback of the detached kill runs.
-Not proved here: `stopped ⇒ no listed pid` as an invariant of all non-blocked reachable states.  It
-holds by inspection (`.stopped` is only written by `stopAfterKill` right after `reapProcesses`
-emptied the dict — `C02_reap_processes_clears`, `C02_stop_completes` —, and `spawnAdopt` is only
-reached behind `spawnProcess`'s `status = stopped → return` guard — `C02_stopped_no_spawn`), but it
-is not a per-writer invariant: the `Leaf` fields `setStatus : ∀ u st, …` and `spawnAdopt : ∀ u w, …`
-are unprovable for it (they need the restriction `st ≠ .stopped`, resp. to be replaced by the
-composite obligations for `spawnProcess` and `stopAfterKill`).
+* `C04_stopped_means_no_process` — in every reachable state in which the daemon does not hang, a
+  watcher that reports `stopped` lists no process (`numprocesses` 0, empty `list`).  Not a
+  per-writer invariant: proved in Core/StoppedEmpty.lean over the weak chain of Generic.lean, with
+  the places that write `stopped` (`_stop` after `reap_processes`; `spawn_processes` of an on-demand
+  watcher behind `pids.isEmpty`) and the one that adopts a process (`spawn_process`, behind
+  `status = stopped → return`) done by hand.
 -/
 namespace Circus.Core
 
@@ -867,6 +867,32 @@ theorem C04_popProc_pops (v : Val) (u pid : Nat) (s : State) :
   rw [getW_popPid]
   simp
 
+/-! ## 5. stopped means no process -/
+
+/-- **a watcher reports `stopped` only with zero processes**: in every reachable state (all request
+    histories over any configuration whose watchers start with an empty `processes` dict, all hook
+    outcomes, exec failures, deaths at every kernel-call boundary, on-demand watchers and socket
+    events included) in which the daemon is not hung in `reap_process`, every watcher object whose
+    status is `stopped` lists no pid — so `numprocesses` answers 0 and `list` answers nothing for
+    it. -/
+theorem C04_stopped_means_no_process (cfg : List Watcher) (behavs : List Behav) (warm : Nat)
+    (hcfg : ∀ w ∈ cfg, w.pids = []) (ops : List Op)
+    (hb : (run (initState cfg behavs warm) ops).blocked = false) :
+    (∀ w ∈ (run (initState cfg behavs warm) ops).ws, w.status = .stopped → w.pids = []) ∧
+    ∀ u, (getW u (run (initState cfg behavs warm) ops)).1.status = .stopped →
+      (getW u (run (initState cfg behavs warm) ops)).1.pids = [] ∧
+      (activeProcs u (run (initState cfg behavs warm) ops)).1 = [] := by
+  have h := stoppedEmpty_run cfg behavs warm (fun w hw _ => hcfg w hw) ops
+  rcases h with h | h
+  · rw [hb] at h; cases h
+  · refine ⟨h, ?_⟩
+    intro u hst
+    have hp := getW_stopped_empty h u hst
+    refine ⟨hp, ?_⟩
+    have hsub := C04_active_sublist u (run (initState cfg behavs warm) ops)
+    rw [hp] at hsub
+    exact List.sublist_nil.mp hsub
+
 /-! ## non-vacuity: the hypotheses on concrete states -/
 
 /-- two watchers, three workers running -/
@@ -916,5 +942,14 @@ example : exD.k.DeadIn 100 ∧ 100 ∈ (getW 1 exD).1.pids := by
   rw [hp] at h
   simp only [Option.map_some, Option.some.injEq] at h
   rw [h]; simp
+
+-- stopped with nothing listed, not blocked: the watcher whose hook rejects its worker has been through a
+-- real `_stop` (kill, reap, status write) …
+example : (run (initState vetoCfg [{}] 0) [.start]).blocked = false ∧
+    (run (initState vetoCfg [{}] 0) [.start]).ws.map (fun w => (w.status, w.pids)) = [(.stopped, [])] := by
+  decide +kernel
+-- … while watchers that are not stopped do list processes
+example : exS.blocked = false ∧ exS.ws.map (fun w => (w.status, w.pids)) = [(.active, [100, 101]), (.starting, [102])] := by
+  decide +kernel
 
 end Circus.Core
